@@ -676,6 +676,10 @@ class Frame:
             row, col = (k[1][0], k[1][1]) if k[0] == 'tuple' and len(k[1]) == 2 else (k, None)
             if col is not None and col[0] == 'call' and col[1] == 'get_loc' and len(col[2]) >= 2:
                 col = col[2][1]
+            if base_node.attr in ('loc', 'at') and not T.is_boolarr(row) and row[0] not in ('cmp', 'cmp0', 'band', 'bor', 'binv', 'not'):
+                # .loc addresses rows by index LABEL: the same cell as the positional store only on a default 0..n-1 index,
+                # which a cycle table cut from a longer one (limit_df, boolean selection) does not have
+                row = ('label', row)
             if cur[0] == 'table' and col is not None and T.isconst(col) and col[1] in dict(cur[1]):
                 cols = dict(cur[1])
                 cols[col[1]] = _arr_store(cols[col[1]], row, v, g)
